@@ -20,7 +20,7 @@ type UniImpl struct {
 	// input list.
 	LoadHistory func(prog *Program, initial []string, steps [][]string) (snap *USnap, objectsStable bool, inputs []string, err error)
 	// LoadHistoryLookups: the same with hand lookups (Universe.Type of (package, name)) made right before incremental step i
-	LoadHistoryLookups func(prog *Program, initial []string, steps [][]string, lookups [][][2]string) (snap *USnap, objectsStable bool, inputs []string, err error)
+	LoadHistoryLookups func(prog *Program, initial []string, steps [][]string, lookups [][][3]string) (snap *USnap, objectsStable bool, inputs []string, err error)
 	// RequestTwice asks the same loader for package pkg twice, ignoring the first answer, and returns both errors
 	RequestTwice func(prog *Program, pkg string) (first, second error)
 }
@@ -39,7 +39,7 @@ func progLines(variant string, prog *Program, facts []string, requested []string
 type loadScript struct {
 	initial []string
 	steps   [][]string
-	lookups [][][2]string // lookups[i]: made right before steps[i]
+	lookups [][][3]string // lookups[i]: made right before steps[i]
 }
 
 func (ls *loadScript) requested() []string {
@@ -60,7 +60,7 @@ func progFromLines(lines []string) (*Program, []string, *loadScript) {
 	prog := &Program{Module: "example.com/m"}
 	var facts []string
 	script := &loadScript{}
-	var pending [][2]string
+	var pending [][3]string
 	for _, l := range lines {
 		f := Fields(l)
 		switch f[1] {
@@ -74,7 +74,7 @@ func progFromLines(lines []string) (*Program, []string, *loadScript) {
 		case "load":
 			script.initial = UnhexList(f[2])
 		case "lookup":
-			pending = append(pending, [2]string{Unhex(f[3]), Unhex(f[4])})
+			pending = append(pending, [3]string{Unhex(f[3]), Unhex(f[4]), f[2]})
 		case "loadto":
 			script.steps = append(script.steps, UnhexList(f[2]))
 			script.lookups = append(script.lookups, pending)
@@ -219,6 +219,24 @@ func UniverseProperty(prop string, impl UniImpl) Property {
 										feats = append(feats, "lookup-before-load")
 									}
 								}
+								// Universe.Function / Variable / Constant by hand, of declarations that exist and of ones that never will
+								what := ""
+								switch sc.Lookup(nm).(type) {
+								case *gotypes.Func:
+									what = "func"
+								case *gotypes.Var:
+									what = "var"
+								case *gotypes.Const:
+									what = "const"
+								}
+								if what != "" && r.Chance(1, 3) {
+									ls = append(ls, Line("uni", "lookup", what, Hex(requested[i]), Hex(nm)))
+									feats = append(feats, "lookup-decl-before-load")
+								}
+							}
+							if r.Chance(1, 4) {
+								ls = append(ls, Line("uni", "lookup", r.Pick([]string{"func", "var", "const"}), Hex(requested[i]), Hex("NeverDeclared")))
+								feats = append(feats, "lookup-decl-never-declared")
 							}
 						}
 						ls = append(ls, Line("uni", "loadto", HexList([]string{requested[i]})))
